@@ -21,6 +21,7 @@ class Lower:
     def __init__(self, q, ids):
         self.q = q
         self.alias = {}
+        self.derived = {}      # alias of a derived table -> {column name: the inner select item it stands for}
         self.tid = {t: i for t, (i, _) in ids.items()}
         self.cid = {t: c for t, (_, c) in ids.items()}
 
@@ -33,6 +34,8 @@ class Lower:
         return '$%d.%d' % (self.tid[t], j) if not occ else '"$%d.%d(%d)"' % (self.tid[t], j, occ)
 
     def col(self, e):
+        if e[1] in self.derived:
+            return self.derived[e[1]][e[2]]
         t, occ = self.alias.get(e[1], (e[1], 0))
         return self.colkey(t, occ, self.cid[t][e[2]])
 
@@ -93,8 +96,23 @@ class Lower:
         q = self.q
         p = None
         for i, f in enumerate(q['from']):
-            self.bind_alias(f[2], f[1])
-            s = self.scan(f[1], self.alias[f[2]][1])
+            if isinstance(f[1], dict):
+                # derived table: lower the inner query on its own (its aliases are local), expose its select items by name
+                inner = Lower(f[1], {t: (self.tid[t], self.cid[t]) for t in self.tid})
+                inner.alias = dict(self.alias)      # occurrences keep counting across the whole statement
+                s = inner.plan()
+                for a_, v_ in inner.alias.items():
+                    self.alias.setdefault('\0' + f[2] + '.' + a_, v_)
+                names = f[1].get('names') or []
+                m = {}
+                for j, x in enumerate(f[1]['select']):
+                    nm = (names[j] if j < len(names) and names[j] else (x[2] if x[0] == 'col' else None))
+                    if nm:
+                        m[nm] = inner.expr(x)
+                self.derived[f[2]] = m
+            else:
+                self.bind_alias(f[2], f[1])
+                s = self.scan(f[1], self.alias[f[2]][1])
             if i == 0:
                 p = s
             elif f[0] == 'cross':
@@ -319,6 +337,23 @@ def family():
     for p in preds:
         q = {'from': [('table', 'u', 'u')], 'where': p, 'select': [x, y], 'group': None, 'having': None, 'distinct': False, 'order': None, 'limit': None, 'offset': None}
         out.append({'sql': corpus.q_sql(q), 'ast': q})
+    # derived tables in FROM (filtered, de-duplicated, aggregated with a named aggregate), alone and joined
+    ux, uy = col('u', 'x'), col('u', 'y')
+    sx, sy, sn = ('col', 's', 'x', 'I'), ('col', 's', 'y', 'I'), ('col', 's', 'n', 'I')
+    base = {'where': None, 'group': None, 'having': None, 'distinct': False, 'order': None, 'limit': None, 'offset': None}
+    d1 = dict(base, **{'from': [('table', 'u', 'u')], 'select': [ux, uy], 'names': ['x', 'y'], 'where': ('>', uy, L(0))})
+    d2 = dict(base, **{'from': [('table', 'u', 'u')], 'select': [ux, uy], 'names': ['x', 'y'], 'distinct': True})
+    d3 = dict(base, **{'from': [('table', 'u', 'u')], 'select': [ux, cnt], 'names': ['x', 'n'], 'group': [ux]})
+    d4 = dict(base, **{'from': [('table', 'u', 'u')], 'select': [ux, uy], 'names': ['x', 'y'], 'where': ('isnotnull', ux)})
+    ta, tb = col('t', 'a'), col('t', 'b')
+    for q in (dict(base, **{'from': [('table', d1, 's')], 'select': [sx, sy], 'where': ('<', sx, L(2))}),
+              dict(base, **{'from': [('table', d2, 's')], 'select': [sx, cnt], 'group': [sx]}),
+              dict(base, **{'from': [('table', d3, 's')], 'select': [sx], 'where': ('>', sn, L(1))}),
+              dict(base, **{'from': [('table', d3, 's')], 'select': [sn, sx], 'order': [(sn, True)]}),
+              dict(base, **{'from': [('table', 't', 't'), ('left', d4, 's', ('=', tb, sx))], 'select': [ta, sy]}),
+              dict(base, **{'from': [('table', 't', 't'), ('inner', d3, 's', ('=', tb, sx))], 'select': [ta, sn], 'where': ('>=', sn, L(1))}),
+              dict(base, **{'from': [('table', d1, 's'), ('full', 't', 't', ('=', sx, tb))], 'select': [sx, ta]})):
+        out.append({'sql': corpus.q_sql(q), 'ast': q})
     # self-joins: two occurrences of one table under different aliases
     for t, c0, c1 in (('u', 'x', 'y'), ('t', 'b', 'c')):
         a = lambda c: ('col', 'a1', c, 'I')
@@ -367,7 +402,13 @@ def run(rep, thorough, only=None):
             rep.cov['not_accepted_by_binder'] = rep.cov.get('not_accepted_by_binder', 0) + 1
             continue
         o = p['opt'].get('mem', {})
-        used = {str(ids[f[1]][0]) for f in g['ast']['from']} | {str(t['id']) for t in cat if re.search(r' AS s\b', g['sql']) and (' %s AS s' % t['name']) in g['sql']}
+        def base_tables(q_):
+            for f in q_['from']:
+                if isinstance(f[1], dict):
+                    yield from base_tables(f[1])
+                else:
+                    yield f[1]
+        used = {str(ids[t_][0]) for t_ in base_tables(g['ast'])} | {str(t['id']) for t in cat if re.search(r' AS s\b', g['sql']) and (' %s AS s' % t['name']) in g['sql']}
         tasks.append({'sql': g['sql'], 'ast': g['ast'], 'bound': p['bound'], 'opt': o.get('plan'), 'K': K if len(used) <= 2 else 2, 'contracts': contracts, 'ban': ban,
                       'ids': ids, 'tabs': {t: c for t, c in tabs.items() if t in used}, 'variants': {'%s|%s' % k_: v for k_, v in variants.items()}, 'names': names,
                       'order_cols': order_cols(g['ast'])})
